@@ -99,12 +99,14 @@ class Check:
     def matches_known(self, k, v):
         return False
 
-    def history(self, ro_text, msg_text, sid):
+    def history(self, ro_text, msg_text, sid, via='parse'):
+        """via: how the message object is obtained - parsed directly, or restored by a collection reader"""
         from mosromgr.mostypes import RunningOrder, MosFile
+        from mosromgr.moscollection import MosReader
         import warnings
         warnings.simplefilter('ignore')
         ro1 = RunningOrder.from_string(ro_text)
-        m = MosFile.from_string(msg_text)
+        m = MosFile.from_string(msg_text) if via == 'parse' else MosReader.from_string(msg_text).mos_object
         before = str(m)
         view0 = message_view(m)[0]
         steps = 0
@@ -175,11 +177,14 @@ class Check:
                     cases.append((cls, layout, ro, to_text(doc, pretty=pretty), sid))
         hist_cases = []
         for cls, layout, ro, msg, sid in cases:
-            what, steps = self.history(ro, msg, sid)
-            n += steps + 1
-            sigs.add((cls, layout, what))
-            if what:
-                vio.append({'what': '%s: %s' % (cls, what), 'case': {'kind': 'reuse', 'ro': ro, 'msg': msg, 'sid': sid}, 'impl': what, 'expected': 'independent'})
+            for via in ('parse', 'reader'):
+                what, steps = self.history(ro, msg, sid, via)
+                n += steps + 1
+                sigs.add((cls, layout, via, what))
+                if what:
+                    vio.append({'what': '%s%s: %s' % (cls, '' if via == 'parse' else ' (object restored by a MosReader)', what),
+                                'case': {'kind': 'reuse', 'ro': ro, 'msg': msg, 'sid': sid, 'via': via}, 'impl': what, 'expected': 'independent'})
+                    break
             hist_cases.append({'ro': ro, 'msgs': [msg] + [to_text(d) for d in later_edits(sid)]})
         # the pure model is the semantics under the discipline: same history, same trees
         for (cls, layout, ro, msg, sid), (isteps, msteps) in zip(cases, engine.hist_cases(hist_cases)):
@@ -199,7 +204,7 @@ class Check:
         case = rep.get('case') or {}
         if case.get('kind') != 'reuse':
             return {'violation': False, 'note': str(rep.get('detail') or case)}
-        what, steps = self.history(case['ro'], case['msg'], case.get('sid'))
+        what, steps = self.history(case['ro'], case['msg'], case.get('sid'), case.get('via', 'parse'))
         return {'violation': bool(what), 'what': what}
 
     def shrink(self, v):
